@@ -1585,6 +1585,8 @@ def aten_broadcast_tensors(tensors: Sequence[TensorType]) -> TensorType:
 @torch_op("aten::broadcast_to", trace_only=True)
 def aten_broadcast_to(self: TTensor, size: Sequence[INT64]) -> TTensor:
     """broadcast_to(Tensor(a) self, SymInt[] size) -> Tensor(a)"""
+    # -1 keeps the existing dimension (as in aten_expand); ONNX Expand spells that 1
+    size = [1 if isinstance(s, int) and s == -1 else s for s in size]
     size = common_ops.merge_dims(size)
     return op.Expand(self, size)
 
